@@ -85,6 +85,11 @@ func shortSlots(c [8]*big.Int) string {
 }
 
 func c10Eval(cs *c10Case) (key, msg string, err error) {
+	defer func() {
+		if r := recover(); r != nil {
+			key, msg, err = "panic", fmt.Sprintf("proof JSON code panics: %v", r), nil
+		}
+	}()
 	raw, err := hex.DecodeString(cs.Raw)
 	if err != nil {
 		return "", "", err
